@@ -95,6 +95,9 @@ func Unmarshal(data []byte) (any, error) {
 
 type internalStruct struct {
 	PointerNum uint32 `json:",omitempty"`
+	// NilPointerLevel is set for a nil pointer: the 1-based level (counted from the outside) of the pointer
+	// that is nil; PointerNum then holds the full pointer depth of the type.
+	NilPointerLevel uint32 `json:",omitempty"`
 
 	// based type
 	Type      string          `json:",omitempty"`
@@ -132,7 +135,10 @@ func internalMarshal(v any) (*internalStruct, error) {
 	for rt.Kind() == reflect.Ptr {
 		ret.PointerNum++
 		if rv.IsNil() {
+			ret.NilPointerLevel = ret.PointerNum
+			rt = rt.Elem()
 			for rt.Kind() == reflect.Ptr {
+				ret.PointerNum++
 				rt = rt.Elem()
 			}
 			key, ok := rm[rt]
@@ -274,6 +280,16 @@ func internalUnmarshal(v *internalStruct) (any, error) {
 		if !ok {
 			return nil, fmt.Errorf("unknown type key: %v", v.Type)
 		}
+		if v.NilPointerLevel > 0 && v.NilPointerLevel <= v.PointerNum {
+			// a nil pointer at the given level: allocate the outer levels, leave that one nil
+			result := reflect.New(resolvePointerNum(v.PointerNum, t)).Elem()
+			cur := result
+			for i := uint32(1); i < v.NilPointerLevel; i++ {
+				cur.Set(reflect.New(cur.Type().Elem()))
+				cur = cur.Elem()
+			}
+			return result.Interface(), nil
+		}
 		pResult := reflect.New(resolvePointerNum(v.PointerNum, t))
 		err := sonic.Unmarshal(v.JSONValue, pResult.Interface())
 		if err != nil {
@@ -328,7 +344,7 @@ func internalUnmarshal(v *internalStruct) (any, error) {
 		rvt = resolvePointerNum(v.MapValuePointerNum, rvt)
 
 		// todo: if all values are based, can use unmarshal instead of internalUnmarshal
-		result, dResult := createValueFromType(reflect.MapOf(rkt, rvt))
+		result, dResult := createValueFromType(resolvePointerNum(v.PointerNum, reflect.MapOf(rkt, rvt)))
 		for marshaledMapKey, internalValue := range v.MapValues {
 			prkv := reflect.New(rkt)
 			err := sonic.UnmarshalString(marshaledMapKey, prkv.Interface())
@@ -357,7 +373,7 @@ func internalUnmarshal(v *internalStruct) (any, error) {
 	rvt = resolvePointerNum(v.SliceValuePointerNum, rvt)
 
 	// todo: if all slice values are based, can use unmarshal instead of internalUnmarshal
-	result, dResult := createValueFromType(reflect.SliceOf(rvt))
+	result, dResult := createValueFromType(resolvePointerNum(v.PointerNum, reflect.SliceOf(rvt)))
 	for _, internalValue := range v.SliceValues {
 		value, err := internalUnmarshal(internalValue)
 		if err != nil {
